@@ -19,6 +19,7 @@
 
 #define MAXCFG 96
 static wcfg_t cfgs[MAXCFG];
+static int veconly[MAXCFG];   /* quick tier: configurations explored with the vector-resize edits only */
 static int ncfg, nsteps[MAXCFG];
 static int thorough;
 
@@ -840,6 +841,15 @@ static void run_group(long gi, void *unused)
             return;
         }
         take_seed(&g);
+        if (veconly[g.ci])
+        {
+            int mis[96], ks[96], nvec = vec_count(g.seed, g.seed_len, ver_is_dtls(cfgs[g.ci].ver), mis, ks, 96), fi, var;
+            for (fi = 0; g.seed_len > 0 && fi < nvec && !mx_deadline_hit(); fi++)
+            {
+                for (var = 0; var < VR_N; var++) fork_edit(&g, E_VEC, fi, var);
+            }
+            continue;
+        }
         /* earlier plaintext handshake units delivered once more in this later state (a retransmission, a replay): as they
            were, and - DTLS, where a repeated unit is legitimate traffic - with every vector resized */
         {
@@ -1035,6 +1045,13 @@ int main(int argc, char **argv)
             const wcfg_t *c = &cfgs[i];
             int keep = (c->kx == KX_PSK && !c->cver && !c->suite && (c->ver == V_TLS12 || c->ver == V_DTLS12)) || (c->ver == V_TLS12 && c->kx == KX_RSA && !c->cver) || (c->ver == V_TLS13 && c->kx == KX_13_RSA && !c->cver) ||
                 (c->ver == V_TLS13 && c->kx == KX_13_PSK && !c->early_data);
+            if (!keep && c->ver == V_TLS12 && c->kx == KX_ECDHE_RSA && c->client_auth && !c->cver)
+            {
+                /* TLS 1.2 with client authentication (ServerKeyExchange, CertificateRequest, client Certificate and
+                   CertificateVerify exist): in quick with the vector-resize edits only */
+                keep = 1;
+                veconly[n] = 1;
+            }
             if (keep)
             {
                 cfgs[n++] = *c;
@@ -1193,6 +1210,19 @@ int main(int argc, char **argv)
             groups[ngroups].p = p;
             ngroups++;
         }
+    }
+    if (getenv("MXV_C08_ONLY_F"))
+    {
+        /* development aid (never set by bin/check): keep only the part F groups */
+        int k = 0;
+        for (i = 0; i < ngroups; i++)
+        {
+            if (groups[i].ci >= 1500 && groups[i].ci < 1600)
+            {
+                groups[k++] = groups[i];
+            }
+        }
+        ngroups = k;
     }
     mx_parallel(ngroups, run_group, NULL);
     san_cleanup();
